@@ -119,7 +119,9 @@ func tlogRead(file []byte, drw *dialect.ReadWriter, n int) string {
 		}
 		e := rc.e
 		s := fmt.Sprintf("E(%d#%s)", e.Time.UnixMicro(), hx.Frame(e.Frame))
-		if e.Time.Nanosecond()%1000 != 0 || e.Time.Location() != time.UTC {
+		// UnixMicro() wraps around silently for instants outside the int64 range of microseconds: the
+		// instant must be the one its microseconds denote
+		if e.Time.Nanosecond()%1000 != 0 || e.Time.Location() != time.UTC || !e.Time.Equal(time.UnixMicro(e.Time.UnixMicro())) {
 			s += "BAD-TIME"
 		}
 		out = append(out, s)
